@@ -302,7 +302,8 @@ pub fn elf_lkm(l: &Layout, debug_section: bool) -> Vec<u8> {
     // `.gnu.linkonce.this_module` first (kbuild usually emits `.modinfo` first).
     if debug_section {
         sh.push(shdr(n_this, 1, 0x3, 0, this_off, 0x40, 64));
-        sh.push(shdr(n_modinfo, 1, 0x2, 0, modinfo_off, modinfo.len() as u64, 1));
+        // sh_addralign = 0 is legal and means "no alignment constraint", like 1
+        sh.push(shdr(n_modinfo, 1, 0x2, 0, modinfo_off, modinfo.len() as u64, 0));
     } else {
         sh.push(shdr(n_modinfo, 1, 0x2, 0, modinfo_off, modinfo.len() as u64, 1));
         sh.push(shdr(n_this, 1, 0x3, 0, this_off, 0x40, 64));
